@@ -7,7 +7,7 @@
 
    The record table and its meaning are the C07 model (Admission/Conflicts.v: [has_conflict] on [build es] equals
    [conflict_spec es]); here it is placed under block acceptance: the chain is the list of events of the accepted
-   transactions, a block at height cur+1 is admitted when none of its transactions is hit. *)
+   transactions, a block at height cur+1 is accepted when none of its transactions is hit. *)
 From NG Require Import Common.Tactics Mempool.Model Admission.Conflicts.
 Open Scope N_scope.
 
@@ -20,17 +20,17 @@ Section OnChain.
 
   Definition asked (t : ctx) : list N := if all_signers then ct_signers t else firstn 1 (ct_signers t).
 
-  Definition tx_admitted (es : list cevent) (cur : N) (t : ctx) : bool :=
+  Definition tx_accepted (es : list cevent) (cur : N) (t : ctx) : bool :=
     negb (has_conflict (build es) (ct_hash t) (asked t) cur mtb).
-  Definition block_admitted (es : list cevent) (cur : N) (txs : list ctx) : bool :=
-    forallb (tx_admitted es cur) txs.
+  Definition block_accepted (es : list cevent) (cur : N) (txs : list ctx) : bool :=
+    forallb (tx_accepted es cur) txs.
 
   Definition event_of (idx : N) (t : ctx) : cevent := mkEvent idx (ct_signers t) (ct_names t).
 
   (* offering a block to a node at height cur whose accepted transactions are es *)
   Definition offer (st : N * list cevent) (txs : list ctx) : N * list cevent :=
     let '(cur, es) := st in
-    if block_admitted es cur txs then (cur + 1, es ++ map (event_of (cur + 1)) txs) else (cur, es).
+    if block_accepted es cur txs then (cur + 1, es ++ map (event_of (cur + 1)) txs) else (cur, es).
 
   Definition offers (st : N * list cevent) (blocks : list (list ctx)) : N * list cevent :=
     fold_left offer blocks st.
@@ -63,26 +63,26 @@ Qed.
 Section Theorems.
   Variable mtb : N.
 
-  (* one block: with the code's question, no admitted transaction has a signer-backed on-chain conflict *)
-  Lemma admitted_no_signer_conflict (es : list cevent) (cur : N) (txs : list ctx) :
+  (* one block: with the code's question, no accepted transaction has a signer-backed on-chain conflict *)
+  Lemma accepted_no_signer_conflict (es : list cevent) (cur : N) (txs : list ctx) :
     sorted es -> below es cur ->
-    block_admitted true mtb es cur txs = true ->
+    block_accepted true mtb es cur txs = true ->
     forall t, In t txs -> signer_conflict es cur mtb t = false.
   Proof.
-    intros S B A t Ht. unfold block_admitted in A. rewrite forallb_forall in A. specialize (A t Ht).
-    unfold tx_admitted, asked in A. apply negb_true_iff in A.
+    intros S B A t Ht. unfold block_accepted in A. rewrite forallb_forall in A. specialize (A t Ht).
+    unfold tx_accepted, asked in A. apply negb_true_iff in A.
     unfold signer_conflict. rewrite <- (conflict_records_exact cur mtb es (ct_hash t) (ct_signers t) S B). exact A.
   Qed.
 
   (* ... spelled out *)
-  Lemma admitted_no_signer_conflict' (es : list cevent) (cur : N) (txs : list ctx) :
+  Lemma accepted_no_signer_conflict' (es : list cevent) (cur : N) (txs : list ctx) :
     sorted es -> below es cur ->
-    block_admitted true mtb es cur txs = true ->
+    block_accepted true mtb es cur txs = true ->
     forall t e s, In t txs -> In e es -> traceable (e_idx e) cur mtb = true ->
                   In (ct_hash t) (e_names e) -> In s (ct_signers t) -> ~ In s (e_signers e).
   Proof.
     intros S B A t e s Ht He Tr Hn Hs Hin.
-    pose proof (admitted_no_signer_conflict es cur txs S B A t Ht) as F.
+    pose proof (accepted_no_signer_conflict es cur txs S B A t Ht) as F.
     unfold signer_conflict, conflict_spec in F.
     assert (X : existsb (names_and_shares (ct_hash t) (ct_signers t) cur mtb) es = true).
     { apply existsb_exists. exists e. split; auto. unfold names_and_shares.
@@ -97,7 +97,7 @@ Section Theorems.
   Lemma offer_ok a st txs : chain_ok st -> chain_ok (offer a mtb st txs).
   Proof.
     destruct st as [cur es]. intros [S B]. unfold offer.
-    destruct (block_admitted a mtb es cur txs); [|split; auto].
+    destruct (block_accepted a mtb es cur txs); [|split; auto].
     split; simpl.
     - apply (sorted_app es _ (cur + 1)); auto.
       + intros x Hx. specialize (B x Hx). simpl in B. lia.
@@ -120,8 +120,8 @@ Section Theorems.
     intros st Hacc t Ht.
     assert (C : chain_ok st) by (apply offers_ok; split; [apply sorted_nil|intros e []]).
     destruct st as [cur es]. destruct C as [S B]. simpl in *.
-    destruct (block_admitted true mtb es cur txs) eqn:A; simpl in Hacc; [|lia].
-    exact (admitted_no_signer_conflict es cur txs S B A t Ht).
+    destruct (block_accepted true mtb es cur txs) eqn:A; simpl in Hacc; [|lia].
+    exact (accepted_no_signer_conflict es cur txs S B A t Ht).
   Qed.
 End Theorems.
 
